@@ -411,7 +411,7 @@ type driverOutcome struct {
 // goroutine dump showing that nothing is in flight any more, followed by an observation that still shows another
 // member, is decisive.
 func (e *env) decideNeverApplied(id string, after int64) driverOutcome {
-	for try := 0; try < 50; try++ {
+	for try := 0; try < 80; try++ {
 		if e.pbox.flag.Load() {
 			return driverOutcome{kind: "panic"}
 		}
@@ -454,12 +454,18 @@ func (e *env) decideNeverApplied(id string, after int64) driverOutcome {
 				}
 			}
 		}
-		time.Sleep(100 * time.Millisecond)
+		if try < 20 {
+			time.Sleep(15 * time.Millisecond)
+		} else {
+			time.Sleep(100 * time.Millisecond)
+		}
 	}
 	return driverOutcome{kind: "inconclusive", note: "selection " + id + " not observed and the goroutine dumps were not decisive"}
 }
 
-const confirmWait = 3 * time.Second
+// confirmWait only paces the driver. When it elapses nothing is decided by it: decideNeverApplied looks for decisive
+// evidence (nothing in flight + a fresh Write landing elsewhere) and otherwise keeps waiting.
+const confirmWait = 150 * time.Millisecond
 
 func (e *env) confirmOrDecide(id string, after int64) driverOutcome {
 	if e.waitConfirm(id, after, confirmWait) {
@@ -684,6 +690,8 @@ func execCase(sp *spec, abort chan struct{}, verbose bool) vrun.Result {
 	}
 
 	close(start)
+	wdone := make(chan struct{})
+	go func() { wg.Wait(); e.writersDone.Store(true); close(wdone) }()
 
 	// ---- driver (this goroutine)
 	out := driverOutcome{kind: "ok"}
@@ -735,7 +743,7 @@ func execCase(sp *spec, abort chan struct{}, verbose bool) vrun.Result {
 				call = clk.tick()
 				v := s.ID
 				spoll.cur.Store(&v)
-				if !spin(func() bool { return spoll.seen.Load() == &v }, confirmWait) {
+				if !spin(func() bool { return spoll.seen.Load() == &v }, 10*time.Second) {
 					if !e.pbox.flag.Load() && !e.aborted() {
 						out = driverOutcome{kind: "inconclusive", note: "the polling scheduler did not poll within seconds"}
 					}
@@ -791,14 +799,11 @@ func execCase(sp *spec, abort chan struct{}, verbose bool) vrun.Result {
 		}
 	}
 
-	wdone := make(chan struct{})
-	go func() { wg.Wait(); close(wdone) }()
 	select {
 	case <-wdone:
 	case <-abort:
 		return vrun.Inconcl("aborted while writers were running")
 	}
-	e.writersDone.Store(true)
 
 	// final selection: the last member id the scheduler emitted must become observable, then two tail writes.
 	if out.kind == "ok" && !e.pbox.flag.Load() {
